@@ -37,7 +37,10 @@ def _render_list_item(
             continue
         text += renderer.render_token(tok, state)
 
-    lines = text.splitlines()
+    # only a line feed ends a line here (str.splitlines also breaks at form feeds, U+2028 ...)
+    lines = text.split("\n")
+    if lines[-1] == "":
+        lines.pop()
     text = (lines[0] if lines else "") + "\n"
     prefix = " " * len(leading)
     for line in lines[1:]:
